@@ -50,6 +50,11 @@ structure AbsMap where
   size : Nat
   frame : Nat
   flags : Word
+  /-- lower bounds for the parent part of the effective rights: the parent flags requested when the page was
+  mapped (later maps through shared parents only add flags), lowered by explicit `set_flags_pN_entry` calls
+  on a parent entry of the page -/
+  prw : Bool := false
+  pus : Bool := false
   deriving Repr
 
 structure MState where
@@ -406,10 +411,19 @@ def handleMapper : SHandler MState := fun _cfg op a impl st =>
         let flagsEff := if huge then w flags ||| 0x80#64 else w flags
         let abs' : List AbsMap :=
           if !isOk then st.abs
-          else if opcode ≤ 2 then { start := pageEff, size := sz, frame := frame, flags := flagsEff } :: st.abs
+          else if opcode ≤ 2 then
+            { start := pageEff, size := sz, frame := frame, flags := flagsEff,
+              prw := bitRW pflagsEff, pus := bitUS pflagsEff } :: st.abs
           else if opcode == 3 then st.abs.filter (fun x => !(x.start == page && x.size == sz))
           else if opcode == 4 then
             st.abs.map (fun x => if x.start == page && x.size == sz then { x with flags := flagsEff } else x)
+          else if opcode == 5 || opcode == 6 || opcode == 7 then
+            -- the flags of a parent entry are *replaced*: the guaranteed rights of every page below it shrink
+            let pre := (parents ++ [leafIdx]).take (opcode - 4)
+            st.abs.map (fun x =>
+              if pre == [vaIdx4 x.start, vaIdx3 x.start, vaIdx2 x.start].take pre.length then
+                { x with prw := x.prw && bitRW (w flags), pus := x.pus && bitUS (w flags) }
+              else x)
           else st.abs
         let allocated : List Word := (allocs.take obs.allocs).filterMap id
         let preTables := tableFrames imPre p4
@@ -440,6 +454,12 @@ def handleMapper : SHandler MState := fun _cfg op a impl st =>
              | some x => (obs.res.drop 2).head? == some (toString x.frame)
              | none => false
            else true) &&
+          -- … and keep including them for every page mapped earlier: later calls through shared parent entries
+          -- may only add flags (seed C01-7: the recursive mapper replaced the flags of an existing parent entry)
+          probes.all (fun va =>
+            match walk imPost p4 va, (if underDisabled disabled' va then none else absLookup abs' va) with
+            | some x, some a => (!(a.prw && bitRW a.flags) || x.rw) && (!(a.pus && bitUS a.flags) || x.us)
+            | _, _ => true) &&
           -- effective rights include the requested parent flags
           (if isOk && opcode ≤ 2 then
              match walk imPost p4 pageEff with
